@@ -34,6 +34,9 @@ var verifC14Src = []string{
 	"len(@i)", "upper(@i)", "trim(@i)", "substring(@s from 2 for 2)", "lpad(@i, 5, '0')", "replace(@s, @t, @s)",
 	"@d < @d", "@d = @s", "@d between @d and @d", "@d in (@d, @s)", "(@i, @d) = (@j, @d)", "@s || @i || @f",
 	"case when @d is not null then @d else @s end",
+	// unary operators on table cells that are any int64 (the ends of the range take their own paths)
+	"(select -a from t where b = 'x')", "(select +a from t where b = 'y')", "(select -(-a) from t where b = 'x')",
+	"(select abs(a) from t where b = 'x')", "(select a * -1 from t where b = 'y')", "(select -a + 0 from t where b = 'y') is not null",
 }
 
 var verifC14Exprs []parser.QueryExpression
